@@ -1,6 +1,7 @@
 import Driver.Proto
 import Gotree.Model.C09
 import Gotree.Model.C09Lit
+import Gotree.Model.C09Float
 import Gotree.Spec.C09
 
 namespace Gotree.Driver.C09
@@ -41,7 +42,7 @@ def parseDumps (s : String) : Option (List T) := (splitTerm "|" s).mapM T.undump
 /-- tags describing the collection (generator branches, hypotheses) -/
 def collTags (ts : List T) (c : Rat) : List String :=
   let nt := (allSides ts).filter fun s => decide (2 ≤ lightSize (taxa ts) s)
-  let dom := !ts.isEmpty && ts.all domainTree && sameTaxa ts
+  let dom := !ts.isEmpty && ts.all domainTreeTip && sameTaxa ts   -- = `demanded ts c == some true` for an in-range threshold
   let tm := ts.map rerootTip
   tagIf (ts.any (·.rooted)) "rooted" ++ tagIf (ts.any (!·.rooted)) "unrooted" ++
   tagIf (ts.any (·.rooted) && ts.any (!·.rooted)) "mixed" ++
@@ -57,11 +58,21 @@ def collTags (ts : List T) (c : Rat) : List String :=
 
 def baseCls (s : String) : String := (s.splitOn ":").headD ""
 
+/-- the model of the code as it is now (tie): `consensusNow = consensusCut cutNow`, `cutNow` being the
+    FMA-corrected float64 cut since a53968e (= the exact floor, `fma_cut_exact`, so this is `consensus`
+    of the theorems, `consensus_fma_cut`); before, the truncated float64 product (`consensusFloat`) -/
+def modelNow (ord : List Entry → List Entry) (ts : List T) (c : Rat) : Out := consensusNow ord ts c
+
 /-- oracle + tie for one run of Consensus -/
 def judge (tagsIn : List String) (c : Rat) (floorGo : Int) (ts : List T) (cls : String) (res : Option T) : Verdict :=
   let tags := tagsIn ++ collTags ts c
   let n := ts.length
-  if inRange c && floorGo != ((floorCut c n : Nat) : Int) then ⟨.pass, "skip-floatproduct" :: tags, ""⟩ else
+  -- the float64 product, computed exactly (round-to-nearest-even of the rational product), against Go's own arithmetic
+  let fcut := floatCut c n
+  if inRange c && floorGo != ((fcut : Nat) : Int) then
+    ⟨.tie, tags, "model of the float64 product int(c*float64(n)) gives " ++ toString fcut ++ ", Go " ++ toString floorGo⟩ else
+  let tags := tags ++ tagIf (inRange c && fcut != floorCut c n) "float-cut-differs" ++
+    tagIf (inRange c && fcut != floorCut c n && (allSides ts).any (fun s => C09S.count ts s == fcut && fcut != n && decide (2 ≤ lightSize (taxa ts) s))) "float-boundary"
   let icls := baseCls cls
   -- the oracle: the Spec on the implementation's own output
   let oracle : Option String :=
@@ -75,12 +86,20 @@ def judge (tagsIn : List String) (c : Rat) (floorGo : Int) (ts : List T) (cls : 
          if !(splitsOK ts c r) then
            some ("splits of the consensus " ++ showStrLists (canonSet r.usplitSet) ++ " differ from the selected ones " ++ showStrLists (expectedSplits ts c))
          else if !(supportsOK ts r) then some "a support differs from the split's frequency"
-         else if allLens ts && !(lengthsOK ts r) then some "a length differs from the mean over the trees containing the split"
+         else if !(lengthsOKWhereDefined ts r) then some "a length differs from the mean over the trees containing the split"
          else none
        | _, _ => some ("valid collection not accepted: " ++ cls))
     | none => none
+  -- the float64-product defect (tree/algo.go:353, repaired by a53968e: the class is for its return), as narrow as the finding: in-range threshold, the rounded product
+  -- truncates to one more than the exact floor, and the implementation's tree is exactly the Spec's consensus for
+  -- that count cut (same taxa, the splits with count > int(c*float64(n)) or in every tree)
+  let floatClass : Bool :=
+    inRange c && demanded ts c == some true && fcut == floorCut c n + 1 &&
+    (match icls, res with
+     | "ok", some r => sortS r.tipNames == sortS (taxa ts) && canonSet r.usplitSet == expectedSplitsCut ts fcut
+     | _, _ => false)
   match oracle with
-  | some msg => ⟨.oracle, tags, msg⟩
+  | some msg => ⟨.oracle, tags, (if floatClass then "class=ConsensusFloatProductCut " else "") ++ msg⟩
   | none =>
     let dtags := tags ++ tagIf (demanded ts c == none) "out-of-domain" ++
       tagIf (demanded ts c == some false && inRange c) "rejected-taxa" ++ tagIf (!inRange c) "rejected-range"
@@ -91,15 +110,22 @@ def judge (tagsIn : List String) (c : Rat) (floorGo : Int) (ts : List T) (cls : 
       ⟨.tie, dtags, "a collection of the Spec's domain is not in the domain domB of consensus_exact"⟩ else
     if demanded ts c == some true && !(selHyp tm c) then
       ⟨.tie, dtags, "a valid collection fails the hypothesis selOK of consensus_splits (selected rows not pairwise compatible)"⟩ else
-    match consensus id ts c with
+    match modelNow id ts c with
     | .unsupported => ⟨.pass, "skip-unsupported" :: dtags, ""⟩
     | .panic => if icls == "panic" then ⟨.pass, "empty" :: dtags, ""⟩ else ⟨.tie, dtags, "model panics (empty collection), implementation: " ++ cls⟩
     | .err w => if icls == "err" then ⟨.pass, ("model-err-" ++ w) :: dtags, ""⟩ else ⟨.tie, dtags, "model rejects (" ++ w ++ "), implementation: " ++ cls⟩
     | .ok m =>
       match icls, res with
       | "ok", some r =>
-        if obsAgree r m then ⟨.pass, Gotree.C09L.fidelity ((tagsIn.headD "").startsWith "cli") r ts c :: dtags, ""⟩
-        else ⟨.tie, dtags, "model " ++ showObs m ++ " implementation " ++ showObs r⟩
+        if !(obsAgree r m) then ⟨.tie, dtags, "model " ++ showObs m ++ " implementation " ++ showObs r⟩ else
+        -- the second, literal model (real bucket order: an `ord` other than `id`, real neighbour order) on the same observation
+        let loose := (tagsIn.headD "").startsWith "cli"
+        let lit := Gotree.C09L.litOf loose ts c
+        match lit with
+        | some ml =>
+          if obsAgree r ml then ⟨.pass, Gotree.C09L.fidelityOf loose r lit :: dtags, ""⟩
+          else ⟨.tie, dtags, "literal model " ++ showObs ml ++ " implementation " ++ showObs r⟩
+        | none => ⟨.tie, dtags, "the literal model (hash map, neighbour order) fails where the implementation and the first model succeed"⟩
       | _, _ => ⟨.tie, dtags, "model accepts, implementation: " ++ cls⟩
 
 def parseRes (cls res : String) : Option (Option T) :=
